@@ -213,7 +213,13 @@ func checkTaintSink(c *Ctx, rule string, e *Env, sk taintSink, depth int) {
 			continue // source inside a callee (e.g. the stored nonce counter reader): storage-derived, not argument-derived
 		}
 		recvTerm := se.Term(call.Call.Args[0])
-		if !argDerived(recvTerm) {
+		derived := argDerived(recvTerm)
+		for _, d := range se.bigReachingDefs(call.Call.Args[0], call) {
+			if bigMethod(d) == "SetBytes" && len(d.Call.Args) == 2 && argDerived(se.Term(d.Call.Args[1])) {
+				derived = true
+			}
+		}
+		if !derived {
 			continue
 		}
 		atom := se.Term(call)
